@@ -275,12 +275,69 @@ def gen_case(rnd, size):
                 globals_[n] = 'shadowed-global'
     else:
         locals_, globals_ = None, dict(values)
+    if rnd.random() < 0.15:
+        # variables that carry the spelling of a literal: null, true and false in an expression are the literals, whatever is bound to those names
+        for name in rnd.sample(['true', 'false', 'null'], rnd.randint(1, 3)):
+            target = locals_ if (locals_ is not None and rnd.random() < 0.6) else globals_
+            target[name] = rnd.choice([0.0, 'x', 5.0, False, True, None, [1.0]])
     return tree, text, globals_, locals_, g, var_types
 
 
 def count_types(var_types, text):
     return len({t for n, t in var_types.items() if re.search(r'\b%s\b' % n, text)} | ({'lit-num'} if re.search(r'(?<![\w.])\d', text) else set())
                | ({'lit-str'} if "'" in text else set()))
+
+
+# ---- (b2) the called name is looked up when the call happens: after its arguments were evaluated ------------------------------------
+
+CALLEE_FORMS = [
+    # (expression, expected value, names bound afterwards) - swap() re-binds pick to the new function and returns 'v'; define() binds later for the first time
+    ('pick(swap())', 'new:v'),
+    ("pick('a') + pick(swap()) + pick('b')", 'old:anew:vnew:b'),
+    ('pick(pick(swap()))', 'new:new:v'),
+    ("pick(swap(), pick('z'))", 'new:v'),
+    ("pick(pick('z'), swap())", 'new:old:z'),
+    ('later(define())', 'later:w'),
+    ("if(true, pick(swap()), pick('no'))", 'new:v'),
+    ("pick(swap()) == 'new:v' && pick('q') == 'new:q'", True),
+    ("arrayNew(pick('a'), pick(swap()), pick('c'))", ['old:a', 'new:v', 'new:c']),
+]
+
+
+def check_callee_lookup(ix, route):
+    text, want = CALLEE_FORMS[ix]
+    d = {'kind': 'callee', 'form': ix, 'text': text, 'route': route}
+
+    def old_pick(args, options):
+        return 'old:' + str(args[0])
+
+    def new_pick(args, options):
+        return 'new:' + str(args[0])
+
+    def later(args, options):
+        return 'later:' + str(args[0])
+
+    def swap(args, options):
+        options['globals']['pick'] = new_pick
+        return 'v'
+
+    def define(args, options):
+        options['globals']['later'] = later
+        return 'w'
+    g = {'pick': old_pick, 'swap': swap, 'define': define}
+    try:
+        if route == 'script':
+            got = impl.bs.execute_script(impl.bs.parse_script('return ' + text), {'globals': g})
+        else:
+            g.update((k, f) for k, f in impl.bs.SCRIPT_FUNCTIONS.items() if k not in g)
+            got = impl.bs.evaluate_expression(impl.bs.parse_expression(text), {'globals': g}, {'unrelated': 1.0} if route == 'expression-locals' else None,
+                                              route == 'expression-builtins')
+    except Exception as e:  # pylint: disable=broad-except
+        raise Violation('%s route: %r raised %s: %s (a call looks its function up after evaluating the arguments)' % (route, text, type(e).__name__, e), d,
+                        'callee-lookup') from e
+    if got != want:
+        raise Violation('%s route: %r = %r, expected %r (the arguments are evaluated first; the name is looked up when the call happens)' % (route, text, got, want),
+                        d, 'callee-lookup')
 
 
 # ---- (c) aliases --------------------------------------------------------------------------------------------------
@@ -383,6 +440,14 @@ def run_shard(ctx, spec):
                      {'text': text, 'globals': {k: v for k, v in globals_.items()}, 'locals': locals_})
         run_hypothesis(ctx, prop, [st.integers(0, 2 ** 32 - 1), st.integers(1, 6)], spec['n'], salt=spec['k'], minimise=minimise_tree)
         return
+    if spec['kind'] == 'dtarith' and spec['k'] == 0:
+        for ix in range(len(CALLEE_FORMS)):
+            for route in ('script', 'expression', 'expression-locals', 'expression-builtins'):
+                try:
+                    check_callee_lookup(ix, route)
+                except Violation as v:
+                    ctx.violation(v)
+                ctx.case(digest(['callee', ix, route]), True, ['callee-rebound-by-argument', 'route:' + route], {'text': CALLEE_FORMS[ix][0], 'route': route})
     if spec['kind'] == 'dtarith':
         # datetime arithmetic over the whole datetime range: the offset is the distance to a second in-range datetime (plus a small
         # delta), so the results stay in range right up to both ends of the calendar
@@ -497,6 +562,9 @@ def _parse_to_tree(m):
 
 
 def replay(detail):
+    if detail.get('kind') == 'callee':
+        check_callee_lookup(detail['form'], detail['route'])
+        return
     if detail.get('kind') == 'alias':
         check_alias(detail['alias'], detail['target'], dec(detail['args'], {'host_cmp': None}))
         return
